@@ -659,3 +659,13 @@ def arm_variants(stack, enum_suffix):
         if any(("::" + enum_suffix + "::") in ("::" + v) for v in vs if v != "_"):
             return [last_seg(v) for v in vs]
     return None
+
+
+def explicit_err_returns(n, into_closures=False):
+    """`return Err(..)` written in the source (not the residual return of `?`)"""
+    out = []
+    for r in exprs(n, "Ret", into_closures):
+        e = strip(r.get("e", {}))
+        if e.get("k") == "Call" and norm(e.get("callee", "")) == "core::result::Result::Err":
+            out.append(r)
+    return out
